@@ -206,6 +206,35 @@ def case_plane_constructions(ctx):
     ctx.require("plane.project:nonzero", R.nonzero(ctx, xe))
 
 
+def case_collinear4_collections(ctx):
+    """is_collinear with more than dim+1 arguments, on collections: positionwise the rank condition"""
+    from geometer import PointCollection, is_collinear
+    cols = {k: [_point(ctx, f"{k}{i}", finite=False) for i in range(2)] for k in "abcd"}
+    args = [PointCollection(np.stack(cols[k])) for k in "abcd"]
+    for i in range(2):
+        # the first two points distinct (with a = b the library's auxiliary join vanishes and it answers True: documented as outside this check)
+        ctx.assume(ctx.neg(R.proportional(ctx, E(cols["a"][i]), E(cols["b"][i]))))
+    r = is_collinear(*args)
+    for i in range(2):
+        rows = [E(cols[k][i]) for k in "abcd"]
+        ref = R.rank_deficient(ctx, rows[:3] + [rows[3]]) if False else ctx.all([ctx.is_zero(R.det([rows[x], rows[y], rows[z]])) for x, y, z in ((0, 1, 2), (0, 1, 3), (0, 2, 3), (1, 2, 3))])
+        ctx.require(f"is_collinear(4 collections)[{i}]:iff-rank<=2", ctx.iff(ctx.truth(r[i]), ref))
+
+
+def case_perpendicular_3d(ctx):
+    """two lines of 3-space through the lattice point A with directions u (lattice) and v (free): perpendicular iff u.v = 0"""
+    from geometer import Point, Line, is_perpendicular
+    A = [10, 10, 10]
+    u = [1, -1, 0]
+    v = [ctx.real(f"v_{i}") for i in range(3)]
+    ctx.assume(R.nonzero(ctx, v))
+    ctx.assume(ctx.neg(R.proportional(ctx, u, v)))
+    l = Line(Point(*[float(x) for x in A]), Point(*[float(A[i] + u[i]) for i in range(3)]))
+    m = Line(Point(*[float(x) for x in A]), Point(mk_array(ctx, [A[i] + v[i] for i in range(3)] + [1])))
+    r = is_perpendicular(l, m)
+    ctx.require("is_perpendicular-3d:iff-dot-product-zero", ctx.iff(ctx.truth(r), ctx.is_zero(sum(u[i] * v[i] for i in range(3)))))
+
+
 def cases(tier, seed):
     Q, T = ("quick", "thorough"), ("thorough",)
     cs = []
@@ -221,4 +250,6 @@ def cases(tier, seed):
     add("base_point_direction_2d", case_base_point_direction, tiers=Q, max_paths=2000)
     add("basis_matrix_2d", case_basis_matrix, tiers=Q, max_paths=2000)
     add("plane_constructions_3d", case_plane_constructions, tiers=Q, max_paths=2000)
+    add("collinear4_collections", case_collinear4_collections, tiers=Q, max_paths=2000)
+    add("perpendicular_3d", case_perpendicular_3d, tiers=T, max_paths=2000)
     return cs
